@@ -161,8 +161,44 @@ Definition sp_unicode_esc (u : bool) (l : list N) : SR bool :=
       else SOk false l
   | [] => SOk false l
   end.
+(* DecimalEscape as consume_backreference reads it: a back-reference if its number is at most np, the number of
+   capturing groups of the whole pattern; otherwise an error with u, not a DecimalEscape without *)
+Definition sp_backref (u : bool) (np : N) (l : list N) : SR bool :=
+  match l with
+  | c :: r =>
+      if non_zero_digit c then
+        if dec_value (c :: fst (span_digits r)) <=? np then SOk true (snd (span_digits r))
+        else if u then SErr else SOk false l
+      else SOk false l
+  | [] => SOk false l
+  end.
+(* LegacyOctalEscapeSequence (maximal munch, value at most 0o377) *)
+Definition sp_legacy_octal (l : list N) : bool * list N :=
+  match l with
+  | a :: r1 =>
+      if octal_digit a then
+        match r1 with
+        | b :: r2 =>
+            if octal_digit b then
+              if zero_to_three a then
+                match r2 with
+                | c :: r3 => if octal_digit c then (true, r3) else (true, r2)
+                | [] => (true, r2)
+                end
+              else (true, r2)
+            else (true, r1)
+        | [] => (true, r1)
+        end
+      else (false, l)
+  | [] => (false, l)
+  end.
 (* AtomEscape, in the order consume_atom_escape tries the alternatives; SOk false (no escape here) only without u *)
-Definition sp_atom_escape (u : bool) (l : list N) : SR bool :=
+Definition sp_atom_escape (u : bool) (np : N) (l : list N) : SR bool :=
+  match sp_backref u np l with
+  | SOk true r' => SOk true r'
+  | SErr => SErr
+  | SFuel => SFuel
+  | SOk false _ =>
   match l with
   | [] => if u then SErr else SOk false l
   | c :: r =>
@@ -177,21 +213,23 @@ Definition sp_atom_escape (u : bool) (l : list N) : SR bool :=
             match sp_unicode_esc u l with
             | SOk true r' => SOk true r'
             | SOk false _ =>
-                (* `0` before a digit is a legacy octal escape (without u), not in the fragment's grammar *)
-                if identity_escape u c && negb (c =? 48) then SOk true r else if u then SErr else SOk false l
+                let '(b, r') := if u then (false, l) else sp_legacy_octal l in
+                if b then SOk true r'
+                else if identity_escape u c then SOk true r else if u then SErr else SOk false l
             | SErr => SErr
             | SFuel => SFuel
             end
         | SErr => SErr
         | SFuel => SFuel
         end
+  end
   end.
 (* backslash AtomEscape *)
-Definition sp_escape (u : bool) (l : list N) : SR bool :=
+Definition sp_escape (u : bool) (np : N) (l : list N) : SR bool :=
   match l with
   | c :: r =>
       if c =? g_backslash then
-        match sp_atom_escape u r with
+        match sp_atom_escape u np r with
         | SOk true r' => SOk true r'
         | SOk false _ => SOk false l
         | SErr => SErr
@@ -205,6 +243,7 @@ Definition bs_c (l : list N) : bool := match l with b :: c :: _ => (b =? g_backs
 
 Section Knot.
 Variable u : bool.
+Variable np : N.
 Variable sdisj : list N -> SR unit.
 
 (* Disjunction `)` *)
@@ -252,7 +291,7 @@ Definition sp_atom (l : list N) : SR bool :=
   | c :: r =>
       if c =? g_dot then SOk true r
       else if c =? g_backslash then
-        match sp_escape u l with
+        match sp_escape u np l with
         | SOk true r' => SOk true r'
         | SOk false _ => if bs_c l then SOk true r else SOk false l
         | SErr => SErr
@@ -344,12 +383,23 @@ Definition sp_disjunction_body (l : list N) : SR unit :=
   end.
 End Knot.
 
-Fixpoint sp_disjunction (u : bool) (f : nat) (l : list N) : SR unit :=
-  match f with O => SFuel | S f => sp_disjunction_body u (sp_disjunction u f) l end.
+Fixpoint sp_disjunction (u : bool) (np : N) (f : nat) (l : list N) : SR unit :=
+  match f with O => SFuel | S f => sp_disjunction_body u np (sp_disjunction u np f) l end.
+
+(* NcapturingParens, counted on the units: an unescaped `(` that is not followed by `?` (the fragment has no named groups) *)
+Fixpoint count_groups (l : list N) (escaped : bool) : N :=
+  match l with
+  | [] => 0
+  | c :: r =>
+      if escaped then count_groups r false
+      else if c =? g_backslash then count_groups r true
+      else if (c =? g_lparen) && negb (starts_with g_question r) then 1 + count_groups r false
+      else count_groups r false
+  end.
 
 (* Pattern: a Disjunction that spans the whole input *)
 Definition sp_pattern (u : bool) (l : list N) : SR unit :=
-  match sp_disjunction u (S (length l)) l with
+  match sp_disjunction u (count_groups l false) (S (length l)) l with
   | SOk _ [] => SOk tt []
   | SOk _ (_ :: _) => SErr
   | SErr => SErr
@@ -360,19 +410,17 @@ Definition recognises (u : bool) (l : list N) : bool := match sp_pattern u l wit
 (* ---- the fragment ----
    A left-to-right scan of the units, in the mode u:
      a backslash is followed by a unit x, which is skipped, where
-         x is not one of the digits 1-9 (back-references / legacy octal escapes are outside the fragment),
          with u: x is not one of k p P (named references and property escapes are outside the fragment),
-         without u: if x is 0, the unit after it is not a decimal digit (legacy octal);
+         if x is one of the digits 1-9, the value of the decimal digits that start at x is below 2^63;
      every other unit is any unit but an opening bracket `[` (classes are outside the fragment);
      `(?<` is followed by `=` or `!` (a look-behind, not a named group);
      where `{` starts a syntactically complete `{n}` `{n,}` `{n,m}`, the bounds are below 2^63 (the implementation
-         accumulates them in saturating 64-bit arithmetic, the grammar compares the unbounded values). *)
+         accumulates decimal numbers in saturating 64-bit arithmetic, the grammar compares the unbounded values). *)
 Definition plain_char (c : N) : bool := negb (c =? g_lbracket).
-Definition nonzero_digit (c : N) : bool := (49 <=? c) && (c <=? 57).
-Definition allowed_after_backslash (u : bool) (x : N) (r : list N) : bool :=
-  negb (nonzero_digit x) &&
-  (if u then negb (existsb (N.eqb x) [107; 112; 80]) else negb ((x =? 48) && starts_digit r)).
 Definition bound_limit : N := 9223372036854775808.
+Definition allowed_after_backslash (u : bool) (x : N) (r : list N) : bool :=
+  (if non_zero_digit x then dec_value (x :: fst (span_digits r)) <? bound_limit else true) &&
+  (if u then negb (existsb (N.eqb x) [107; 112; 80]) else true).
 Definition braces_small (l : list N) : bool :=
   match sp_braced l with
   | Some (n, om, _) => (n <? bound_limit) && match om with Some m => m <? bound_limit | None => true end
